@@ -7,6 +7,10 @@ pub fn run(ctx: &Ctx) -> Outcome {
     let d = ctx.tier.pick(6, 8);
     run_and_report(ctx, &tx_window(ctx.tier, true, 10, d), &mut out);
     run_and_report(ctx, &tx_window(ctx.tier, false, 10, d), &mut out);
+    run_and_report(ctx, &tx_slowstart(ctx.tier, ctx.tier.pick(7, 9)), &mut out);
+    run_and_report(ctx, &tx_window_mtu(ctx.tier, ctx.tier.pick(6, 8)), &mut out);
+    run_and_report(ctx, &rtx(ctx.tier, 5, true, ctx.tier.pick(6, 8)), &mut out);
+    run_and_report(ctx, &rtx_after_recovery_rto(ctx.tier, ctx.tier.pick(6, 8)), &mut out);
     if ctx.tier == Tier::Thorough {
         run_and_report(ctx, &tx_window(ctx.tier, true, 16, d), &mut out);
     }
